@@ -670,6 +670,26 @@ class CallMixin:
         st = a.get('str') if isinstance(a, VUnion) else a.t
         return [Res(p, VList(z3.Unit(st), 'str'))]
 
+    def _cblog(self, p):
+        return self.lib.cblog(p)
+
+    def sp_cb_unchanged(self, node, p, fc):
+        env, heap, epoch = fc.old
+        old = heap.get('$cblog', z3.Const('H%s_$cblog' % epoch, z3.SeqSort(CbCall)))
+        return [Res(p, VBool(self._cblog(p) == old))]
+
+    def sp_cb_appended(self, node, p, fc):
+        """cb_appended(f, a0, ..): exactly one user callback was made by this call: f(a0, ..)"""
+        env, heap, epoch = fc.old
+        old = heap.get('$cblog', z3.Const('H%s_$cblog' % epoch, z3.SeqSort(CbCall)))
+        vs = [self.ev(a, p, fc)[0].v for a in node.args]
+        vals = [to_val(v) for v in vs[1:]]
+        n = len(vals)
+        while len(vals) < 6:
+            vals.append(Val.v_unset)
+        rec = CbCall.mk_cb(to_val(vs[0]), n, *vals)
+        return [Res(p, VBool(self._cblog(p) == z3.Concat(old, z3.Unit(rec))))]
+
     def sp_fn(self, node, p, fc):
         """fn('qualified.name'): the code of a repo function as stored in timers (t_fn)"""
         return [Res(p, VInt(fn_code(ast.literal_eval(node.args[0]))))]
